@@ -171,6 +171,11 @@ func (l *life) found(where, what string) {
 
 func (l *life) search(where string, hay []byte) {
 	l.sc.search(hay, func(what string) { l.found(where, what) })
+	if strings.HasPrefix(where, "error-of-") {
+		if n := mnemonicLikeRun(hay); n >= wordRunThreshold {
+			l.found(where, fmt.Sprintf("mnemonic-like-word-run:%d-consecutive-list-words", n))
+		}
+	}
 }
 
 // snapshot copies the wallet database directory, opens the copy with goleveldb and returns every
